@@ -133,7 +133,7 @@ class Emitter:
         s.tso = spec.get('tso', 0)
         s.stubs = set(spec.get('stubs', []))
         s.atomic = set(spec.get('atomic', []))
-        s.blocking = set(spec.get('blocking', ['pthread_mutex_lock', 'pthread_join', 'futex', 'pthread_cond_wait',
+        s.blocking = set(spec.get('blocking', ['pthread_mutex_lock', 'pthread_join', 'futex', 'membarrier', 'pthread_cond_wait',
                                                'rt_wait_eq']))
         s.invisible_prims = set(spec.get('invisible_prims', [])) | {'__errno_location', '__irseq_bad_indirect', 'abort', '__assert_fail',
                                                                     'strerror', 'perror', 'pthread_self', 'getpagesize', 'sysconf'}
